@@ -17,6 +17,24 @@ from vlib import Broken, NCPU, log
 
 PROPS = {"C12": "exploration", "C14": "exploration"}
 HARNESS = ["zz_verif_schema_test.go", "zz_verif_oblig_test.go"]
+_TECH = ("TLA+ path explorer (SchemaWalk.tla) over the REAL schema graph and the REAL walker tables, both exported at check time as a "
+         "generated TLA+ module; TLC enumerates every structural path to a leaf and checks the table-completeness invariants; one real "
+         "interceptor run per emitted path on a concrete message; records judged by TLC (SchemaObs.tla)")
+_NOTE = ("Trusted: TLC; the descriptor rule that says which fields carry a namespace name / event blob / search attributes (DESIGN 3.11); "
+         "recursion bounded (each type at most twice per path, depth 9/11); one leaf per message (all-at-once and random messages are not "
+         "generated). TLC adds exhaustive enumeration and the oracle here, no interleaving insight.")
+MANIFEST = {
+    "C12": dict(engine="SchemaWalk", category="exploration", design_ref="3.11", technique=_TECH, note=_NOTE,
+                text="Every (request/response/stream message type, structural path) to a namespace-name field of WorkflowService and "
+                     "AdminService - through nested messages, repeated fields, maps, oneofs, failure chains, links and serialized "
+                     "history-event blobs - is enumerated by TLC from the real descriptors (about 2.4k paths over 308 root types) and "
+                     "executed on the real TranslationInterceptor / streamTranslator; the mapped name must come out. Exhaustive over paths "
+                     "up to the recursion bound."),
+    "C14": dict(engine="SchemaWalk", category="exploration", design_ref="3.11", technique=_TECH, note=_NOTE,
+                text="Same explorer for search-attribute containers (typed container and bare map form, inside event blobs too): on "
+                     "AdminService messages the mapped key must be renamed with the value untouched and the unmapped key kept; on every "
+                     "WorkflowService message nothing may change (method filter)."),
+}
 MINE = {
     "C12": {"untranslated", "error"},
     "C14": {"sa", "sawf", "error"},
